@@ -52,7 +52,7 @@ def regenerate_tables():
     """returns (ok, changed, log)"""
     target = os.path.join(LEAN, "JSL", "Gen", "Tables.lean")
     tmp = target + ".new"
-    env = dict(os.environ, PYTHONPATH="/repo")
+    env = dict(os.environ, PYTHONPATH=os.environ.get("JSL_REPO", "/repo"))
     rc, out = sh(["/venv/bin/python", os.path.join(HERE, "gen_tables.py"), tmp], env=env, timeout=600)
     if rc != 0 or not os.path.exists(tmp):
         return False, False, out[-3000:]
